@@ -65,10 +65,24 @@ fn main() {
             if let Some(f) = fam.strip_prefix("trace:") {
                 // C15 at size: the trace of a string whose cursors lie beyond 16 bits
                 let s = gen::family(f, n);
-                match oracle::trace_check(&t, &s, &format!("family {} with {} atoms ({} characters)", f, n, s.chars().count())) {
-                    Some(Ok(())) => { println!("trace ok characters={}", s.chars().count()); return }
+                let label = format!("family {} with {} atoms ({} characters)", f, n, s.chars().count());
+                match oracle::trace_check(&t, &s, &label) {
+                    Some(Ok(())) => println!("main-thread trace ok characters={}", s.chars().count()),
                     Some(Err(m)) => { println!("trace error {}", m); std::process::exit(1) }
                     None => { println!("trace error the family string is refused"); std::process::exit(1) }
+                }
+                // the same in a thread with an ordinary small stack (C19: reading with a trace must not need stack in
+                // proportion to the input)
+                let s2 = s.clone();
+                let h = std::thread::Builder::new().stack_size(2 * 1024 * 1024).spawn(move || {
+                    let t2 = canon::Tables::new();
+                    oracle::trace_check(&t2, &s2, "2 MiB thread")
+                }).unwrap();
+                match h.join() {
+                    Ok(Some(Ok(()))) => { println!("2MiB-thread trace ok"); return }
+                    Ok(Some(Err(m))) => { println!("2MiB-thread trace error {}", m); std::process::exit(1) }
+                    Ok(None) => { println!("2MiB-thread trace error refused"); std::process::exit(1) }
+                    Err(_) => { println!("2MiB-thread panicked"); std::process::exit(1) }
                 }
             }
             let s = gen::family(&fam, n);
